@@ -42,6 +42,12 @@ inductive Kind where
   | list (k : Kind)
 deriving Repr
 
+/-- What the reader does with a leaf member whose text is empty (XML: `<value/>` has `.text is None`):
+    keep it as the empty token, treat the member as absent, or raise. JSON readers always keep. -/
+inductive EmptyText where
+  | exact | asNone | asError
+deriving Repr, DecidableEq
+
 structure Row where
   member : String
   attr : String
@@ -55,6 +61,8 @@ structure Row where
   noFalsy : Bool       -- SPEC: no falsy non-None member in the domain (min-length-1 string, non-empty lang set …)
   enumVals : List String   -- SPEC: enum tokens ([] = not an enum)
   dflt : Val           -- what the reader leaves in the attribute when the member is absent
+  emptyText : EmptyText := .exact   -- reader's treatment of an empty leaf text
+  canBeEmpty : Bool := false        -- SPEC: the attribute's lexical token may be the empty string
 deriving Repr
 
 structure ClassTable where
@@ -125,6 +133,22 @@ end
 
 def findRow (rows : List Row) (name : String) : Option Row := rows.find? (fun r => r.member = name)
 
+inductive EmptyAction where
+  | keep | drop | fail
+deriving Repr, DecidableEq
+
+def isEmptyTok : Val → Bool
+  | .tok s _ => s == ""
+  | _ => false
+
+def emptyAction (r : Row) (v : Val) : EmptyAction :=
+  if isEmptyTok v then
+    match r.emptyText with
+    | .exact => .keep
+    | .asNone => .drop
+    | .asError => .fail
+  else .keep
+
 def lookupV (name : String) : List (String × Val) → Option Val
   | [] => none
   | (k, v) :: r => if k = name then some v else lookupV name r
@@ -174,7 +198,11 @@ def decMembers (T : Table) (stripped : Bool) (rows : List Row) : List (String ×
     | some row =>
       if reads stripped row then
         match dec T stripped row.kind w with
-        | .ok v => (decMembers T stripped rows r).map ((name, v) :: ·)
+        | .ok v =>
+          match emptyAction row v with
+          | .keep => (decMembers T stripped rows r).map ((name, v) :: ·)
+          | .drop => decMembers T stripped rows r
+          | .fail => .error (.keyError name)
         | .error e => .error e
       else decMembers T stripped rows r
     | none => decMembers T stripped rows r
@@ -270,7 +298,8 @@ def alwaysPassesB (r : Row) : Bool :=
 
 def wfRowB (r : Row) : Bool :=
   r.decReads && (!r.decRequired || alwaysPassesB r) && losslessB r && (r.encStrip == r.decStrip) &&
-  (!r.encStrip || !guardPass r.guard r.dflt) && simpleDflt r.dflt && (!r.encStrip || !r.decRequired)
+  (!r.encStrip || !guardPass r.guard r.dflt) && simpleDflt r.dflt && (!r.encStrip || !r.decRequired) &&
+  (!r.canBeEmpty || r.emptyText == .exact)
 
 def nodupB : List String → Bool
   | [] => true
